@@ -85,7 +85,7 @@ UNITS = [
     U('Parameter_write_char1d', RC, 'h_Parameter_write_char1d', ['Parameter__write/contract_Parameter__write'],
       ['C03', 'C04', 'C12', 'C13', 'C14', 'C17', 'C10'],
       replace=['vf_stream_write/contract_vf_stream_write', 'ezc3d__toUpper/contract_ezc3d__toUpper'], unwind=5, timeout=1800,
-      tier='thorough', sat='kissat', level='PB',
+      tier='thorough', sat='kissat', level='PB', object_bits=12,
       bound='one-dimensional character parameter of declared width 2..255, name <= 127, description <= 255 (format capacity)'),
     U('Parameters_read', RD, 'h_Parameters_read', ['Parameters__ctor__c3d/contract_Parameters__ctor__c3d'],
       ['C02', 'C13', 'C16', 'C18'],
